@@ -95,6 +95,27 @@ def grid_checks(ctx):
                 ctx.count("illformed_rejected" if r == "ValueError" else "illformed_not_rejected")
             if r != ("ValueError" if a > b else "ok"):
                 bad("illformed-range", "range with start > end accepted / well-formed rejected", start=a, end=b, got=r)
+    # ... also when line / column of the two points are spelled in whatever way (only the index decides), incl. via the helper
+    from pyoak.origin import get_code_range
+
+    for a, b in itertools.product([0, 3, 5, 8], repeat=2):
+        for (la, ca), (lb, cb) in itertools.product([(1, 0), (2, 1), (2, 4), (3, 0)], repeat=2):
+            for how in ("ctor", "helper"):
+                ctx.evaluations += 1
+                try:
+                    if how == "ctor":
+                        CodeRange(CodePoint(a, la, ca), CodePoint(b, lb, cb))
+                    else:
+                        get_code_range(a, la, ca, b, lb, cb)
+                    r = "ok"
+                except ValueError:
+                    r = "ValueError"
+                except Exception as e:  # noqa: BLE001
+                    r = type(e).__name__
+                if a > b:
+                    ctx.count("illformed_rejected" if r == "ValueError" else "illformed_not_rejected")
+                if r != ("ValueError" if a > b else "ok"):
+                    bad("illformed-range", "range with start index > end index accepted / well-formed rejected (line / column spelled independently of the index)", start=(a, la, ca), end=(b, lb, cb), got=r, how=how)
     # pairs
     for (a1, b1, x), (a2, b2, y) in itertools.product(rngs, rngs):
         ctx.evaluations += 1
@@ -468,8 +489,20 @@ def origin_checks(ctx):
         finally:
             if late.exists():
                 late.unlink()
-    if merge_origins() is not NO_ORIGIN:
-        ctx.violation("merge", "merge_origins() of nothing must be NoOrigin", {})
+    try:
+        nothing = merge_origins()
+    except Exception as e:  # noqa: BLE001
+        nothing = f"{type(e).__name__}: {e}"
+    if nothing is not NO_ORIGIN:
+        ctx.violation("merge", "merge_origins() of nothing must be NoOrigin", {"got": repr(nothing)[:100]})
+    for ops_ in ((NO_ORIGIN,), (NO_ORIGIN, NO_ORIGIN), (NO_ORIGIN, NO_ORIGIN, NO_ORIGIN)):
+        ctx.evaluations += 1
+        try:
+            got_ = (merge_origins(*ops_), concat_origins(*ops_))
+        except Exception as e:  # noqa: BLE001
+            got_ = f"{type(e).__name__}: {e}"
+        if got_ != (NO_ORIGIN, NO_ORIGIN) or got_[0] is not NO_ORIGIN:
+            ctx.violation("merge", "merging / concatenating nothing but NoOrigin must give NoOrigin", {"operands": len(ops_), "got": repr(got_)[:100]})
     ctx.extra.pop("_fqn", None)
 
 
